@@ -68,8 +68,25 @@ mod verif_auth_sign {
     recorder!(Rec16, digest::consts::U16, 16);
     recorder!(Rec20, digest::consts::U20, 20);
 
+    // install a key through the public key-installation paths (localized key as is, or master key + engine id), then
+    // forget what the recorder saw so far
+    fn install<D: Digest, const KS: usize>(auth: &mut DigestAuth<D, KS, 12>) {
+        let key: [u8; KS] = kani::any();
+        if kani::any() {
+            auth.as_localized(&key);
+        } else {
+            let engine: [u8; 5] = kani::any();
+            auth.as_master(&key, &engine);
+        }
+        unsafe {
+            NEXT_ID = 0;
+            LEN = [0; 2];
+        }
+    }
+
     fn check_sign<D: Digest, const KS: usize>(auth: &DigestAuth<D, KS, 12>) {
-        let key: [u8; KS] = auth.key;
+        let mut key = [0u8; KS];
+        key.copy_from_slice(auth.get_key());
         let mut data: [u8; MSG] = kani::any();
         let len: usize = kani::any();
         kani::assume(12 <= len && len <= MSG);
@@ -112,26 +129,28 @@ mod verif_auth_sign {
     #[kani::proof]
     #[kani::unwind(100)]
     fn bounded_sign_md5() {
-        let auth = DigestAuth::<Rec16, 16, 12> { key: kani::any(), _pd: PhantomData };
+        let mut auth = DigestAuth::<Rec16, 16, 12>::default();
+        install(&mut auth);
         check_sign(&auth);
     }
     #[kani::proof]
     #[kani::unwind(100)]
     fn bounded_sign_sha1() {
-        let auth = DigestAuth::<Rec20, 20, 12> { key: kani::any(), _pd: PhantomData };
+        let mut auth = DigestAuth::<Rec20, 20, 12>::default();
+        install(&mut auth);
         check_sign(&auth);
     }
     // placeholder(): SS zero octets (complete: no loops, no symbolic sizes)
     #[kani::proof]
     fn proof_placeholder() {
-        let a = DigestAuth::<Rec16, 16, 12> { key: kani::any(), _pd: PhantomData };
+        let a = DigestAuth::<Rec16, 16, 12>::default();
         let p = a.placeholder();
         assert!(p.len() == 12);
         let k: usize = kani::any();
         if k < 12 {
             assert!(p[k] == 0);
         }
-        let b = DigestAuth::<Rec20, 20, 12> { key: kani::any(), _pd: PhantomData };
+        let b = DigestAuth::<Rec20, 20, 12>::default();
         let q = b.placeholder();
         assert!(q.len() == 12);
         if k < 12 {
